@@ -90,7 +90,7 @@ def sis_riders(A, props, fn, cls, G, nodes, I0, tmin, tmax, out, arrs, full, pre
             A.add(V("C04", fn, cls, s, m, pre))
     if "C05" in props:
         if not full:
-            for s, m in mon.c05_arrays(arrs, n, tmin, I0, [], False):
+            for s, m in mon.c05_arrays(arrs, n, tmin, I0, [], False, G=G):
                 A.add(V("C05", fn, cls, s, m, pre))
         else:
             for s, m in mon.c05_full(out, nodes, tmin, I0, [], False):
